@@ -162,6 +162,57 @@ func c16Ops() []c16Op {
 			tok, err := st.FinalizeToken(g.slice)
 			return fmt.Sprint(hxv(enc), hxv(tok.Marshal()), err == nil, g.changedAt())
 		}},
+		{"Finalize of a truncated response with the rest of the message still behind it in the buffer", func(w *c03World, r *Rng) [][]byte {
+			return [][]byte{r.Bytes(16)} // four cut points for each of the four token types
+		}, func(w *c03World, a [][]byte) string {
+			names := []string{"resp1", "resp2", "resp3", "resp5"}
+			all := ""
+			for k := 0; k < 8; k++ {
+				which := k % 4
+				resp := w.resp[names[which]]
+				cut := (int(a[0][2*k])<<8 | int(a[0][2*k+1])) % len(resp)
+				fin := func(b []byte) (out string) {
+					defer func() {
+						if recover() != nil {
+							out = "panic"
+						}
+					}()
+					var err error
+					var m []byte
+					switch which {
+					case 0:
+						t, e := w.st1.FinalizeToken(b)
+						err, m = e, t.Marshal()
+					case 1:
+						t, e := w.st2.FinalizeToken(b)
+						err, m = e, t.Marshal()
+					case 2:
+						t, e := w.st3.FinalizeToken(b)
+						err, m = e, t.Marshal()
+					default:
+						ts, e := w.st5.FinalizeTokens(b)
+						err = e
+						for _, t := range ts {
+							m = append(m, t.Marshal()...)
+						}
+					}
+					if err != nil {
+						return "err"
+					}
+					return "ok " + hxv(m)
+				}
+				behind := append([]byte{}, resp...)[:cut]                                                       // the rest of the honest message in the spare capacity
+				junk := append(append([]byte{}, resp[:cut]...), bytes.Repeat([]byte{0x6b}, len(resp))...)[:cut] // unrelated bytes there
+				exact := make([]byte, cut)                                                                      // nothing there
+				copy(exact, resp[:cut])
+				ra, rb, rc := fin(behind), fin(junk), fin(exact[:cut:cut])
+				if ra != rb || ra != rc {
+					return fmt.Sprintf("!!%s of a response cut to %d bytes depends on what lies behind it in the buffer (rest of the message: %.20s, other bytes: %.20s, nothing: %.20s)", names[which], cut, ra, rb, rc)
+				}
+				all += ra + ";"
+			}
+			return all
+		}},
 		{"type2 CreateTokenRequestWithBlind/Evaluate/FinalizeToken", func(w *c03World, r *Rng) [][]byte {
 			b := r.Bytes(256)
 			b[0] &= 0x3f
